@@ -169,17 +169,57 @@ Qed.
 
 (* ---------- the domain of the refinement theorem ---------- *)
 Definition nonempty (k : path) : bool := match k with [] => false | _ :: _ => true end.
-(* part numbers: the S3 range 1..10000, or beyond what the gateway accepts at all *)
-Definition part_in_domain (n : N) : bool := in_range 1 10000 n || (max_part_id <? n).
+(* (every part number and every CompleteMultipartUpload part list is inside the domain: what the
+   gateway gets wrong there is covered by triggers 5 and 6) *)
 Definition op_in_domain (o : op) : bool :=
   match o with
   | Put k _ | PutS k _ _ | Get k _ | Del k | MpCreate k => nonempty k
   | Copy src dst => nonempty src && nonempty dst
   | BatchDel ks => forallb nonempty ks
-  | MpPut _ n _ | MpPutS _ n _ _ => part_in_domain n
-  | MpCopy _ n src _ => part_in_domain n && nonempty src
-  | MpComplete _ | MpAbort _ | MpList _ => true
+  | MpCopy _ _ src _ => nonempty src
+  | MpPut _ _ _ | MpPutS _ _ _ _ | MpComplete _ _ | MpAbort _ | MpList _ => true
   end.
+
+Lemma domain_big_invalid : forall n, (max_part_id <? n) = true -> valid_part n = false.
+Proof.
+  intros n H. unfold valid_part, in_range. apply N.ltb_lt in H. unfold max_part_id in H.
+  destruct (n <=? 10000) eqn:E; [apply N.leb_le in E; lia|]. apply andb_false_r.
+Qed.
+
+(* ---------- the part list of CompleteMultipartUpload ---------- *)
+Lemma nums_eqb_eq : forall a b, nums_eqb a b = true -> a = b.
+Proof.
+  induction a as [|x a IH]; intros [|y b] H; simpl in H; try discriminate; auto.
+  apply andb_prop in H. destruct H as [H1 H2]. apply N.eqb_eq in H1. subst. f_equal. auto.
+Qed.
+
+Lemma pget_ascending : forall ps, ascending ps -> forall q, In q ps -> pget (fst q) ps = Some (snd q).
+Proof.
+  induction ps as [|[m x] r IH]; intros Ha q Hq; [contradiction|].
+  cbn [pget]. destruct Hq as [<-|Hq].
+  - cbn [fst snd]. rewrite N.eqb_refl. reflexivity.
+  - pose proof (ascending_head_lt (m, x) r Ha q Hq) as Hlt. cbn [fst] in Hlt.
+    destruct (m =? fst q) eqn:E. { apply N.eqb_eq in E. lia. }
+    apply IH; auto. destruct Ha as [_ Ha]. exact Ha.
+Qed.
+
+Lemma pick_sub : forall l ps, (forall q, In q l -> pget (fst q) ps = Some (snd q)) ->
+  pick (map fst l) ps = Some (map snd l).
+Proof.
+  induction l as [|q l IH]; intros ps H; cbn [map pick]; auto.
+  rewrite (H q (or_introl eq_refl)). rewrite IH; auto. intros x Hx. apply H. right. exact Hx.
+Qed.
+
+Lemma pick_self : forall ps, ascending ps -> pick (map fst ps) ps = Some (map snd ps).
+Proof. intros ps Ha. apply pick_sub. apply pget_ascending. exact Ha. Qed.
+
+Lemma strict_asc_self : forall ps, ascending ps -> strict_asc (map fst ps) = true.
+Proof.
+  induction ps as [|a r IH]; intros Ha; auto.
+  destruct r as [|b r']; auto. destruct Ha as [H1 H2].
+  change (strict_asc (map fst (a :: b :: r'))) with ((fst a <? fst b) && strict_asc (map fst (b :: r'))).
+  rewrite (IH H2). apply N.ltb_lt in H1. rewrite H1. reflexivity.
+Qed.
 
 Lemma nonempty_true : forall k, nonempty k = true -> k <> [].
 Proof. intros [|a k] H; [discriminate|discriminate]. Qed.
@@ -226,43 +266,44 @@ Qed.
 
 Lemma put_obj_refines : forall st ss k b st' r fl, R st ss -> k <> [] ->
   put_obj c st k b = (st', r, fl) -> fl = [] ->
-  R st' {| ss_objs := sput (ss_objs ss) k b; ss_ups := ss_ups ss |}.
+  r = ROk /\ R st' {| ss_objs := sput (ss_objs ss) k b; ss_ups := ss_ups ss |}.
 Proof.
   intros st ss k b st' r fl [R1 [R2 R3]] Hk E Hfl. unfold put_obj in E.
   destruct (http_put (st_store st) k (store_body c b)) as [s' ok] eqn:Ep.
-  injection E as Hst Hr Hf. rewrite Hfl in Hf. apply flag_nil in Hf. clear Hr. rename Hf into Hfl'.
+  injection E as Hst Hr Hf. rewrite Hfl in Hf. apply flag_nil in Hf. rename Hf into Hfl'.
   rewrite (http_put_is_create _ _ _ Hfl') in Ep.
   destruct (write_rel (st_store st) (ss_objs ss) k (store_body c b) R1 R2 Hk Hfl' (store_body_ok c b Hchunk))
     as [s1 [E1 [E2 E3]]].
   rewrite E1 in Ep. inversion Ep; subst s' ok. rewrite (store_body_bytes c b Hchunk) in E2.
-  rewrite <- Hst. split; [exact E2|]. split; [exact E3|exact R3].
+  split; [symmetry; exact Hr|]. rewrite <- Hst. split; [exact E2|]. split; [exact E3|exact R3].
 Qed.
 
-(* an accepted part upload extends the history of the upload *)
-Lemma put_part_refines : forall st ss u n b st' r fl, R st ss -> part_in_domain n = true ->
-  put_part c st u n b = (st', r, fl) -> R st' (s_put_part ss u n b).
+(* an accepted part upload extends the history of the upload; a refused one changes nothing *)
+Lemma put_part_refines : forall st ss u n b st' r ss' e, R st ss ->
+  put_part c st u n b = (st', r, []) -> s_put_part ss u n b = (ss', e) ->
+  meets e r = true /\ R st' ss'.
 Proof.
-  intros st ss u n b st' r fl [R1 [R2 R3]] Hn E. unfold put_part, get_upload in E. unfold s_put_part.
+  intros st ss u n b st' r ss' e HR E Es. pose proof HR as [R1 [R2 R3]].
+  unfold put_part, get_upload in E. unfold s_put_part in Es.
   pose proof (Forall2_nth_error up_rel _ _ (N.to_nat u) R3) as Hu.
   destruct (nth_error (st_ups st) (N.to_nat u)) as [up|] eqn:Eu;
-    destruct (nth_error (ss_ups ss) (N.to_nat u)) as [sp|] eqn:Es; try contradiction.
-  2: { inversion E; subst. split; auto. }
+    destruct (nth_error (ss_ups ss) (N.to_nat u)) as [sp|] eqn:Esp; try contradiction.
+  2: { injection E as <- <-. injection Es as <- <-. split; [reflexivity|exact HR]. }
   destruct Hu as [K1 [K2 [[D1 D2]|[h [H1 [H2 H3]]]]]].
-  - rewrite D1 in E. rewrite D2. inversion E; subst. split; auto.
-  - rewrite H2 in E. rewrite H3. unfold part_in_domain in Hn. unfold valid_part.
+  - rewrite D1 in E. rewrite D2 in Es. injection E as <- <-. injection Es as <- <-. split; [reflexivity|exact HR].
+  - rewrite H2 in E. rewrite H3 in Es.
     destruct (max_part_id <? n) eqn:Emax.
-    + inversion E; subst.
-      assert (Hv : in_range 1 10000 n = false).
-      { unfold in_range. apply N.ltb_lt in Emax. unfold max_part_id in Emax.
-        destruct (n <=? 10000) eqn:E2; [apply N.leb_le in E2; lia|]. apply andb_false_r. }
-      rewrite Hv. split; auto.
-    + rewrite orb_false_r in Hn. rewrite Hn. inversion E; subst. clear E.
+    + rewrite (domain_big_invalid n Emax) in Es. injection E as <- <-. injection Es as <- <-.
+      split; [reflexivity|exact HR].
+    + injection E as Hst Hr Hfl. apply flag_nil in Hfl. unfold trig_part_range in Hfl.
+      apply negb_false_iff in Hfl. rewrite Hfl in Es. injection Es as <- <-. rewrite <- Hr.
+      split; [reflexivity|]. rewrite <- Hst.
       split; [exact R1|]. split; [exact R2|].
       unfold set_updir, s_set_parts. cbn [st_ups ss_ups].
       apply Forall2_set_nth; auto.
       split; [exact K1|]. split; [exact K2|]. right. exists (h ++ [(n, b)]). split; [|split].
       * intros m Hm. rewrite map_app in Hm. apply in_app_or in Hm. destruct Hm as [Hm|[<-|[]]]; auto.
-        unfold in_range in Hn. apply andb_prop in Hn. destruct Hn as [A B].
+        unfold valid_part, in_range in Hfl. apply andb_prop in Hfl. destruct Hfl as [A B].
         apply N.leb_le in A. apply N.leb_le in B. simpl. lia.
       * cbn [u_dir]. rewrite dir_of_snoc. reflexivity.
       * cbn [su_parts]. rewrite parts_of_snoc. reflexivity.
@@ -272,16 +313,10 @@ Lemma s_put_part_dead : forall ss u n b,
   match nth_error (ss_ups ss) (N.to_nat u) with
   | None => True
   | Some sp => su_parts sp = None \/ valid_part n = false
-  end -> s_put_part ss u n b = ss.
+  end -> s_put_part ss u n b = (ss, EFail).
 Proof.
   intros ss u n b H. unfold s_put_part. destruct (nth_error (ss_ups ss) (N.to_nat u)) as [sp|]; auto.
   destruct (su_parts sp); auto. destruct H as [H|H]; [discriminate|]. rewrite H. reflexivity.
-Qed.
-
-Lemma domain_big_invalid : forall n, (max_part_id <? n) = true -> valid_part n = false.
-Proof.
-  intros n H. unfold valid_part, in_range. apply N.ltb_lt in H. unfold max_part_id in H.
-  destruct (n <=? 10000) eqn:E; [apply N.leb_le in E; lia|]. apply andb_false_r.
 Qed.
 
 (* names of a history inside 1..10000 *)
@@ -324,16 +359,18 @@ Theorem step_refines : forall st ss o st' r ss' e,
 Proof.
   intros st ss o st' r ss' e HR Hdom Est Ess.
   pose proof HR as [R1 [R2 R3]].
-  destruct o as [k b|k b t|src dst|k rg|k|ks|k|u n b|u n b t|u n src rg|u|u|u];
+  destruct o as [k b|k b t|src dst|k rg|k|ks|k|u n b|u n b t|u n src rg|u ns|u|u];
     cbn [op_in_domain] in Hdom.
   - (* Put *)
-    cbn [step sstep] in Est, Ess. injection Ess as <- <-. split; [reflexivity|].
-    eapply put_obj_refines; eauto. apply nonempty_true; auto.
+    cbn [step sstep] in Est, Ess. injection Ess as <- <-.
+    destruct (put_obj_refines st ss k b st' r [] HR (nonempty_true _ Hdom) Est eq_refl) as [-> HR'].
+    split; [reflexivity|exact HR'].
   - (* PutS *)
     cbn [step sstep] in Est, Ess. destruct t.
     + injection Est as <- <-. injection Ess as <- <-. split; [reflexivity|exact HR].
-    + injection Ess as <- <-. split; [reflexivity|].
-      eapply put_obj_refines; eauto. apply nonempty_true; auto.
+    + injection Ess as <- <-.
+      destruct (put_obj_refines st ss k b st' r [] HR (nonempty_true _ Hdom) Est eq_refl) as [-> HR'].
+      split; [reflexivity|exact HR'].
   - (* Copy *)
     apply andb_prop in Hdom. destruct Hdom as [Hs Hd]. apply nonempty_true in Hs. apply nonempty_true in Hd.
     cbn [step sstep] in Est, Ess. destruct (path_eqb src dst).
@@ -346,11 +383,12 @@ Proof.
            apply app_eq_nil in Hfl. destruct Hfl as [F4 F6]. apply flag_nil in F4. apply flag_nil in F6.
            assert (Hb : fetch_any (st_store st) src = file_bytes fs).
            { unfold fetch_any. rewrite ?Hfn, ?Efs. reflexivity. }
-           rewrite <- Hsrc in Ess. injection Ess as <- <-. split; [reflexivity|].
+           rewrite <- Hsrc in Ess. injection Ess as <- <-.
            rewrite Hb in Ep. rewrite (http_put_is_create _ _ _ F4) in Ep.
            destruct (write_rel (st_store st) (ss_objs ss) dst (store_body c (file_bytes fs)) R1 R2 Hd F4
                        (store_body_ok c _ Hchunk)) as [s1 [E1 [E2 E3]]].
            rewrite E1 in Ep. injection Ep as <- <-. rewrite (store_body_bytes c _ Hchunk) in E2.
+           rewrite <- Hr. split; [reflexivity|].
            rewrite <- Hst. split; [exact E2|]. split; [exact E3|exact R3]. }
       { (* the source key is a directory: trigger 2 *)
         destruct (http_put (st_store st) dst (store_body c (fetch_any (st_store st) src))) as [s' ok].
@@ -396,39 +434,41 @@ Proof.
     split; [reflexivity|]. split; [apply nonempty_true; exact Hdom|]. right. exists []. split; [|split]; try reflexivity.
     intros m [].
   - (* MpPut *)
-    cbn [step sstep] in Est, Ess. injection Ess as <- <-. split; [reflexivity|].
-    eapply put_part_refines; eauto.
+    cbn [step sstep] in Est, Ess. eapply put_part_refines; eauto.
   - (* MpPutS *)
     cbn [step sstep] in Est, Ess. unfold get_upload in Est.
     pose proof (Forall2_nth_error up_rel _ _ (N.to_nat u) R3) as Hu.
     destruct (nth_error (st_ups st) (N.to_nat u)) as [up|] eqn:Eu;
       destruct (nth_error (ss_ups ss) (N.to_nat u)) as [sp|] eqn:Es; try contradiction.
-    2: { injection Est as <- <-. destruct t; injection Ess as <- <-; (split; [reflexivity|]); auto.
-         rewrite s_put_part_dead; auto. rewrite Es. exact I. }
+    2: { injection Est as <- <-.
+         destruct t; [|rewrite s_put_part_dead in Ess by (rewrite Es; exact I)];
+           injection Ess as <- <-; (split; [reflexivity|exact HR]). }
     destruct Hu as [K1 [K2 [[D1 D2]|[h [H1 [H2 H3]]]]]].
     + rewrite D1 in Est. injection Est as <- <-.
-      destruct t; injection Ess as <- <-; (split; [reflexivity|]); auto.
-      rewrite s_put_part_dead; auto. rewrite Es. left. exact D2.
+      destruct t; [|rewrite s_put_part_dead in Ess by (rewrite Es; left; exact D2)];
+        injection Ess as <- <-; (split; [reflexivity|exact HR]).
     + rewrite H2 in Est. destruct (max_part_id <? n) eqn:Emax.
-      * injection Est as <- <-. destruct t; injection Ess as <- <-; (split; [reflexivity|]); auto.
-        rewrite s_put_part_dead; auto. rewrite Es. right. apply domain_big_invalid. exact Emax.
+      * injection Est as <- <-.
+        destruct t; [|rewrite s_put_part_dead in Ess
+                        by (rewrite Es; right; apply domain_big_invalid; exact Emax)];
+          injection Ess as <- <-; (split; [reflexivity|exact HR]).
       * destruct t.
         -- injection Est as <- <-. injection Ess as <- <-. split; [reflexivity|exact HR].
-        -- injection Ess as <- <-. split; [reflexivity|]. eapply put_part_refines; eauto.
+        -- eapply put_part_refines; eauto.
   - (* MpCopy *)
-    apply andb_prop in Hdom. destruct Hdom as [Hn Hs]. apply nonempty_true in Hs.
+    rename Hdom into Hs. apply nonempty_true in Hs.
     cbn [step sstep] in Est, Ess. unfold get_upload in Est.
     assert (Hfn : find_node (st_store st) src = find (st_store st) src) by (destruct src; [congruence|reflexivity]).
     pose proof (R1 src) as Hsrc. unfold obj_at in Hsrc.
     pose proof (Forall2_nth_error up_rel _ _ (N.to_nat u) R3) as Hu.
     (* when the specification's upload is missing or the number is refused, the specification does nothing *)
-    assert (Hnothing : (forall d, s_put_part ss u n d = ss) ->
+    assert (Hnothing : (forall d, s_put_part ss u n d = (ss, EFail)) ->
                        meets e RNoUpload = true /\ meets e RErr = true /\ ss' = ss).
     { intros Hdead. destruct (sfind (ss_objs ss) src) as [d|].
       - destruct rg as [[a b]|].
-        + destruct (ref_spec (RClosed a b) (Z.of_N (blen d))) as [[o l]|]; injection Ess as <- <-;
-            rewrite ?Hdead; auto.
-        + injection Ess as <- <-. rewrite Hdead. auto.
+        + destruct (ref_spec (RClosed a b) (Z.of_N (blen d))) as [[o l]|]; rewrite ?Hdead in Ess;
+            injection Ess as <- <-; auto.
+        + rewrite Hdead in Ess. injection Ess as <- <-. auto.
       - injection Ess as <- <-. auto. }
     destruct (nth_error (st_ups st) (N.to_nat u)) as [up|] eqn:Eu;
       destruct (nth_error (ss_ups ss) (N.to_nat u)) as [sp|] eqn:Es; try contradiction.
@@ -456,24 +496,27 @@ Proof.
       (* the data the model copies, given that it succeeds, is the data of the specification *)
       assert (Hgo : forall data,
                 (set_updir st u up (Some (dir_put (part_name n) (store_body c data) (dir_of c h))), ROk,
-                 flag 2 (is_dir_at (st_store st) src) ++ flag 3 (range_at_end (st_store st) src rg)) = (st', r, []) ->
-                R st' (s_put_part ss u n data)).
-      { intros data E. injection E as Hst Hr Hfl.
-        apply (put_part_refines st ss u n data st' ROk []); auto.
-        unfold put_part, get_upload. rewrite Eu, H2, Emax. rewrite <- Hst. reflexivity. }
+                 flag 2 (is_dir_at (st_store st) src) ++ flag 3 (range_at_end (st_store st) src rg) ++
+                 flag 5 (trig_part_range n)) = (st', r, []) ->
+                s_put_part ss u n data = (ss', e) ->
+                meets e r = true /\ R st' ss').
+      { intros data E Es'. injection E as Hst Hr Hfl.
+        apply app_eq_nil in Hfl. destruct Hfl as [_ Hfl]. apply app_eq_nil in Hfl. destruct Hfl as [_ F5].
+        apply (put_part_refines st ss u n data st' r ss' e); auto.
+        unfold put_part, get_upload. rewrite Eu, H2, Emax. rewrite F5, <- Hst, <- Hr. reflexivity. }
       destruct rg as [[a b]|].
       * rewrite Hsz in Est.
         destruct (parse_spec (RClosed a b) (Z.of_N (blen (file_bytes f)))) as [[o l]|] eqn:Ep.
         -- destruct (ref_spec (RClosed a b) (Z.of_N (blen (file_bytes f)))) as [[o' l']|] eqn:Er.
            ++ rewrite (parse_spec_ref _ _ _ Er) in Ep. injection Ep as <- <-.
-              injection Ess as <- <-. split; [reflexivity|].
               destruct (ref_spec_bounds _ _ o' l' (N2Z.is_nonneg _) Er) as [B1 [B2 B3]].
               assert (Hrd : read_file f (Z.to_N o') (Z.to_N l') = slice (file_bytes f) (Z.to_N o') (Z.to_N l')).
               { apply read_file_slice; auto. rewrite Hsz. lia. }
-              rewrite Hrd in Est. apply Hgo; auto.
+              rewrite Hrd in Est. eapply Hgo; eauto.
            ++ (* parse accepts, the reference does not: the range starts at the end (trigger 3) *)
               exfalso. injection Est as _ _ Hfl.
-              apply app_eq_nil in Hfl. destruct Hfl as [_ F8].
+              apply app_eq_nil in Hfl. destruct Hfl as [_ Hfl].
+              apply app_eq_nil in Hfl. destruct Hfl as [F8 _].
               apply flag_nil in F8. unfold range_at_end in F8. rewrite ?Hfn, ?Ef, ?Hsz in F8.
               apply N.eqb_neq in F8.
               cbn [parse_spec ref_spec] in Ep, Er.
@@ -487,7 +530,7 @@ Proof.
            destruct (ref_spec (RClosed a b) (Z.of_N (blen (file_bytes f)))) as [[o' l']|] eqn:Er.
            ++ rewrite (parse_spec_ref _ _ _ Er) in Ep. discriminate.
            ++ injection Ess as <- <-. split; [reflexivity|exact HR].
-      * injection Ess as <- <-. split; [reflexivity|]. apply Hgo; auto.
+      * eapply Hgo; eauto.
     + rewrite <- Hsrc in Ess. injection Est as <- <-. injection Ess as <- <-. split; [reflexivity|exact HR].
   - (* MpComplete *)
     cbn [step sstep] in Est, Ess. unfold get_upload in Est.
@@ -507,15 +550,28 @@ Proof.
     + rewrite <- El in *.
       assert (Hne : h <> []). { intros ->. cbn in El. discriminate. }
       pose proof (parts_of_nonnil h Hne) as Hpn.
-      assert (Ess' : (s_set_parts {| ss_objs := sput (ss_objs ss) (su_key sp) (List.concat (map snd (parts_of h)));
-                                     ss_ups := ss_ups ss |} u sp None, ENone) = (ss', e)).
-      { destruct (parts_of h) as [|p0 ps0]; [congruence|exact Ess]. }
-      clear Ess. injection Ess' as <- <-.
       destruct (create_entry (st_store st) (u_key up) (File (completed_file (dir_of c h)))) as [s' ok] eqn:Ec.
-      assert (Hflags : flag 0 (trig_inline (dir_of c h)) ++ flag 2 (trig_write (st_store st) (u_key up)) = []).
+      assert (Hflags : flag 0 (trig_inline (dir_of c h)) ++ flag 2 (trig_write (st_store st) (u_key up)) ++
+                       flag 6 (negb (nums_eqb ns (map (fun e => part_number_of (fst e))
+                                                      (sort_by_number (dir_of c h))))) = []).
       { destruct ok; injection Est as _ _ Hf; exact Hf. }
-      apply app_eq_nil in Hflags. destruct Hflags as [F2 F4].
-      apply flag_nil in F2. apply flag_nil in F4.
+      apply app_eq_nil in Hflags. destruct Hflags as [F2 Hflags].
+      apply app_eq_nil in Hflags. destruct Hflags as [F4 F6].
+      apply flag_nil in F2. apply flag_nil in F4. apply flag_nil in F6.
+      apply negb_false_iff in F6. apply nums_eqb_eq in F6.
+      rewrite (sorted_dir_is_parts c h (hist_le h H1)) in F6. rewrite map_map in F6.
+      assert (F6' : ns = map fst (parts_of h)).
+      { rewrite F6. apply map_ext_in. intros q Hq. apply (knum_enc c q).
+        apply (hist_le h H1). apply parts_of_numbers. apply in_map. exact Hq. }
+      clear F6. subst ns.
+      pose proof (parts_of_ascending h) as Hasc.
+      assert (Ess' : (s_set_parts {| ss_objs := sput (ss_objs ss) (su_key sp) (List.concat (map snd (parts_of h)));
+                                     ss_ups := ss_ups ss |} u sp None, EOk) = (ss', e)).
+      { rewrite <- Ess. clear Ess.
+        pose proof (strict_asc_self _ Hasc) as S1. pose proof (pick_self _ Hasc) as S2.
+        destruct (parts_of h) as [|p0 ps0]; [congruence|].
+        cbn [map] in S1, S2 |- *. rewrite S1, S2. reflexivity. }
+      clear Ess. injection Ess' as <- <-.
       destruct (write_rel (st_store st) (ss_objs ss) (u_key up) (completed_file (dir_of c h)) R1 R2 K2 F4
                   (completed_file_ok _ (complete_suffix c h (hist_le h H1)))) as [s1 [E1 [E2 E3]]].
       rewrite E1 in Ec. injection Ec as <- <-.
@@ -531,7 +587,7 @@ Proof.
     destruct (nth_error (st_ups st) (N.to_nat u)) as [up|] eqn:Eu;
       destruct (nth_error (ss_ups ss) (N.to_nat u)) as [sp|] eqn:Es; try contradiction.
     2: { injection Est as <- <-. injection Ess as <- <-. split; [reflexivity|exact HR]. }
-    injection Est as <- <-. injection Ess as <- <-. split; [reflexivity|].
+    injection Est as <- <-. injection Ess as <- <-. split; [destruct (su_parts sp); reflexivity|].
     split; [exact R1|]. split; [exact R2|]. unfold set_updir, s_set_parts. cbn [st_ups ss_ups].
     destruct Hu as [K1 [K2 _]]. apply Forall2_set_nth; auto. split; [exact K1|]. split; [exact K2|]. left. auto.
   - (* MpList *)
@@ -612,7 +668,7 @@ Example history_example :
   let c := {| c_inline := 0; c_chunk := 4 |} in
   let ka := ["a"%string; "b"%string] in let kf := ["f"%string] in let kg := ["g"%string; "h"%string] in
   let ops := [Put ka [1; 2; 3; 4; 5; 6]; Copy ka kg; MpCreate kf; MpPut 0 10000 [7; 7; 7; 7; 7];
-              MpPut 0 2 [8]; MpPut 0 2 [9; 9]; MpCopy 0 1001 ka (Some (1, 3)); MpComplete 0;
+              MpPut 0 2 [8]; MpPut 0 2 [9; 9]; MpCopy 0 1001 ka (Some (1, 3)); MpComplete 0 [2; 1001; 10000];
               Get kf None; Get kf (Some (RClosed 1 6)); Del ka; BatchDel [kg; ka]; Get kg None] in
   forallb op_in_domain ops = true /\
   snd (fst (run c init_state ops)) = [] /\
@@ -621,3 +677,45 @@ Example history_example :
      RData [9; 9; 2; 3; 4; 7; 7; 7; 7; 7]; RData [9; 2; 3; 4; 7; 7]; ROk; ROk; RNotFound] /\
   objects (st_store (snd (run c init_state ops))) = [(kf, [9; 9; 2; 3; 4; 7; 7; 7; 7; 7])].
 Proof. vm_compute. repeat split; reflexivity. Qed.
+
+(* finding 6: CompleteMultipartUpload with the part list [1; 3] of an upload that holds parts 1, 2, 3:
+   the gateway never reads the list and assembles all three parts *)
+Theorem complete_list_refuted :
+  let kf := ["f"%string] in
+  let ops := [MpCreate kf; MpPut 0 1 [1; 1]; MpPut 0 2 [2]; MpPut 0 3 [3; 3]; MpComplete 0 [1; 3]; Get kf None] in
+  forallb op_in_domain ops = true /\
+  run cfg_plain init_state ops =
+    ([ROk; ROk; ROk; ROk; ROk; RData [1; 1; 2; 3; 3]], [6], snd (run cfg_plain init_state ops)) /\
+  fst (srun sinit ops) = [EOk; EOk; EOk; EOk; EOk; EData [1; 1; 3; 3]] /\
+  all2 meets (fst (srun sinit ops)) (fst (fst (run cfg_plain init_state ops))) = false.
+Proof. vm_compute. repeat split; reflexivity. Qed.
+
+(* finding 5: part numbers 0 and 10001 are accepted; ListParts hides part 0; the completed object
+   holds all three parts although S3 refuses two of the uploads and then the completion *)
+Theorem part_range_refuted :
+  let kf := ["f"%string] in
+  let ops := [MpCreate kf; MpPut 0 0 [7]; MpPut 0 1 [1]; MpPut 0 10001 [9]; MpList 0;
+              MpComplete 0 [0; 1; 10001]; Get kf None] in
+  forallb op_in_domain ops = true /\
+  run cfg_plain init_state ops =
+    ([ROk; ROk; ROk; ROk; RParts [(1, 1); (10001, 1)]; ROk; RData [7; 1; 9]], [5; 5],
+     snd (run cfg_plain init_state ops)) /\
+  fst (srun sinit ops) = [EOk; EFail; EOk; EFail; EParts [(1, 1)]; EFail; ENotFound] /\
+  all2 meets (fst (srun sinit ops)) (fst (fst (run cfg_plain init_state ops))) = false.
+Proof. vm_compute. repeat split; reflexivity. Qed.
+
+(* the specification of CompleteMultipartUpload, stated on its own: a request that lists uploaded part
+   numbers in ascending order yields exactly the listed parts' bodies, in that order *)
+Theorem pick_listed : forall ns ps bs, pick ns ps = Some bs ->
+  map Some bs = map (fun n => pget n ps) ns.
+Proof.
+  induction ns as [|n ns IH]; intros ps bs H; cbn [pick] in H.
+  - injection H as <-. reflexivity.
+  - destruct (pget n ps) as [b|] eqn:E1; [|discriminate].
+    destruct (pick ns ps) as [bs'|] eqn:E2; [|discriminate]. injection H as <-.
+    cbn [map]. rewrite E1. f_equal. apply IH. exact E2.
+Qed.
+
+(* the part list that raises no trigger 6 selects every uploaded part *)
+Theorem pick_all : forall h, pick (map fst (parts_of h)) (parts_of h) = Some (map snd (parts_of h)).
+Proof. intros h. apply pick_self. apply parts_of_ascending. Qed.
